@@ -301,6 +301,10 @@ def run(tier, seed):
     two_ctx = dict(many_base, init_freq=[("Normal", "木", 3, 5 * DAY), ("Numeral", "木", 2, 3600 * 1000), ("ForeignWord", "気", 4, 5 * DAY), ("Proper", "気", 1, 60 * 1000)])
     items.append((two_ctx, [{"kind": "convert", "input": "き", "context": "Normal"}, {"kind": "confirm", "session": 0, "cid": "1"},
                             {"kind": "convert", "input": "き", "context": "Numeral"}, {"kind": "confirm", "session": 1, "cid": "0"}]))
+    # the confirmed word's OWN count is the stale one: the confirmation refreshes it (3 -> 4), it is not dropped and re-created as 1
+    items.append((dict(two_ctx), [{"kind": "convert", "input": "き", "context": "Normal"}, {"kind": "confirm", "session": 0, "cid": "0", "text": "木"},
+                                  {"kind": "convert", "input": "き", "context": "ForeignWord"}, {"kind": "confirm", "session": 1, "cid": "0", "text": "気"},
+                                  {"kind": "convert", "input": "き", "context": "Numeral"}, {"kind": "confirm", "session": 2, "cid": "0", "text": "木"}]))
     runs = run_histories(items, threads=12)
     nontrivial = sum(1 for hr in runs if predicate(res, hr))
     rr = rerank_predicate(res, tier, rnd)
